@@ -212,11 +212,12 @@ CLAIMED = {
                  "path holding the right-hand document keeps it; full) and C11_missing_created_partial (composition "
                  "with C09's creation model for straight key/index paths and Scalar right-hand documents under C09's "
                  "guard: the path holds the value afterwards, everything that existed is still in place).  The target "
-                 "locations and the document after path creation are inputs obtained from the real Processor.  Known "
-                 "finding F-C11-5: a missing path holding a wildcard/search segment makes path creation store the "
-                 "right-hand document and merge it into its own children.  Tie: left documents x target paths "
-                 "(single, wildcard/search multi, missing, uncreatable) x right documents of every root type x "
-                 "policies."),
+                 "locations and the document after path creation are inputs obtained from the real Processor.  The former "
+                 "finding F-C11-5 (a missing path that goes on with a wildcard / search / slice / anchor made path "
+                 "creation store the right-hand document and merge it into its own children) is repaired in path "
+                 "creation: such a path is refused before anything is built, also for an empty left document.  Tie: "
+                 "left documents x target paths (single, wildcard/search multi, missing, uncreatable, missing and going "
+                 "on with a segment nothing can be built for) x right documents of every root type x policies."),
         "design_ref": "DESIGN.md section 4 (C11), docs/C11.md",
         "note": NOTE_COMMON + "  Processor.get_nodes results are an input of this model.",
         "technique": "Coq proof (frame lemma over identity-addressed targets) + differential correspondence",
@@ -376,7 +377,7 @@ CLAIMED = {
         "technique": "Coq proof (fuel sufficiency; loop invariant over common anchor names) + differential correspondence + dump/reload judge",
     },
     "C15": {
-        "text": ("18 theorems (Coq, no axioms) over the evaluator model with the keyword model plugged in "
+        "text": ("20 theorems (Coq, no axioms) over the evaluator model with the keyword model plugged in "
                  "(EvalKw.v): for every document, every prepared path of the fragment INCLUDING keyword-search "
                  "segments at any position, and all answering oracles, the stream of a required query, of exists() "
                  "and of an optional query ends normally or with a YAMLPathException (optional: or at the node "
@@ -392,8 +393,8 @@ CLAIMED = {
                  "repaired parser (C15_bracket_collector_refused); for paths prepared from a TEXT the fragment's "
                  "type/attribute pairing demands are theorems now (C15_prepared_in_fragment[_kw], from the parser "
                  "invariant C14_segments_paired) and C15_*_only_ype_text state the property for every text without a "
-                 "collector segment whose keyword parameter texts split (that demand is NOT a parser guarantee: "
-                 "'[max(\\')]' ends in ValueError, listed finding F31, C15_kw_params_refuted).  Tie: exhaustive small documents x paths "
+                 "collector segment (a keyword parameter text that does not split, '[max(\\')]', the former finding F31, is a "
+                 "YAMLPathException since the repair: C15_kw_params_refused; C15_kw_handler_clean holds for every parameter text).  Tie: exhaustive small documents x paths "
                  "with indexes / slice bounds negative, in range, out of range, all search forms, keyword "
                  "segments at every position, scalar collectors; required / optional / exists()."),
         "design_ref": "DESIGN.md section 4 (C15), docs/C15.md",
@@ -440,10 +441,12 @@ CLAIMED = {
                  "resolves in the new document to the supplied value and "
                  "sequences are padded exactly to the requested index (C09_create_resolves_partial / "
                  "C09_create_pads_document_partial; guard = listed finding F25 tail below "
-                 "a set, _refuted witness; F10b null in the prefix is repaired and inside the theorems); in SET mode the "
+                 "a set, _refuted witness; F10b null in the prefix is repaired and inside the theorems); a tail nothing can be "
+                 "built for (on a straight path: a negative index beneath a missing element) is refused before anything "
+                 "is built (C09_create_unbuildable_tail_refused / _beneath_null_refused, since the repair of F-C11-5); in SET mode the "
                  "creation composes with _update_node on the yielded coordinate: walking the path in the final document "
                  "reaches the node make_new_node built, holding the value in the requested format "
-                 "(C09_create_set_composes_partial, same guard; 13 theorems in the creation part).  Tie: a deep snapshot (structure + identities + anchors) of the real "
+                 "(C09_create_set_composes_partial, same guard).  Tie: a deep snapshot (structure + identities + anchors) of the real "
                  "document around every query; creation compared node by node with object identities."),
         "design_ref": "DESIGN.md section 4 (C09), docs/C09.md, docs/C09b.md",
         "note": NOTE_COMMON + "  Optional queries that create nodes are F16b / the creation half.",
